@@ -1,3 +1,48 @@
-(* C03 -- theorems are added below as they are proved (see design-notes/C03.md). *)
+(* C03 -- Cheater lists name exactly the visible forkers.
+   Statements only; proofs in proofs/AbftCheaters.v (example: AbftForkWitness.v).
+   The statement is relative to the index theorem C06 (worker vecidx, props/C06.v
+   C06_merged_from_invariant): "the merged clock of an indexed event = merged_spec of the graph";
+   it appears below as the explicit premise [merged = merged_spec]. *)
 From Coq Require Import NArith List.
-From LV Require Import model.Abft model.AbftRun spec.AbftSpec.
+From LV Require Import model.VecIndex spec.FcSpec model.Abft model.AbftRun spec.AbftSpec
+  proofs.AbftCheaters proofs.AbftForkWitness.
+Import ListNotations.
+Local Open Scope N_scope.
+
+(* the cheaters of a block are computed by the applyAtropos loop from the Atropos' merged clock *)
+Theorem C03_block_cheaters : forall eb es st f atr blk st1,
+  apply_atropos eb es st f atr = (Ok blk, st1) -> b_cheaters blk = cheaters_of st atr.
+Proof. exact apply_atropos_cheaters. Qed.
+
+(* ... they are the validators, in the validator set's canonical order, whose clock entry is the fork marker *)
+Theorem C03_cheaters_by_fork_marker : forall st atr (F : nat -> bool),
+  (forall i, (i < length (l_vals st))%nat -> is_fork (hb_get (merged (l_idx st) atr) i) = F i) ->
+  cheaters_of st atr = map fst (filter (fun p => F (snd p)) (combine (v_ids (l_vals st)) (seq 0 (length (l_vals st))))).
+Proof. exact cheaters_by_flags. Qed.
+
+(* ... hence, given C06, exactly the validators having two different events with the same seq among the
+   ancestors-or-self of the Atropos (FcSpec.sees_fork over the graph E), in canonical order *)
+Theorem C03_cheaters_are_visible_forkers : forall st atr E,
+  map (fun x => (is_fork x, fst x)) (merged (l_idx st) atr) = merged_spec (length (l_vals st)) E atr ->
+  cheaters_of st atr =
+  map fst (filter (fun p => sees_fork E (anc E atr) (snd p)) (combine (v_ids (l_vals st)) (seq 0 (length (l_vals st))))).
+Proof. exact cheaters_are_visible_forkers. Qed.
+
+(* a validator is listed iff it is a visible forker; in particular an honest validator is never listed *)
+Theorem C03_listed_iff_forker : forall st atr E id,
+  map (fun x => (is_fork x, fst x)) (merged (l_idx st) atr) = merged_spec (length (l_vals st)) E atr ->
+  (In id (cheaters_of st atr) <->
+   exists i, nth_error (v_ids (l_vals st)) i = Some id /\ sees_fork E (anc E atr) i = true).
+Proof. exact cheater_iff_visible_forker. Qed.
+
+(* non-vacuity: a run with a forking validator; the second block lists it, and the executable
+   specification (graph closure, spec/AbftSpec.v c03_trace) holds on the trace *)
+Example C03_fork_run :
+  map b_cheaters (concat (map blocks_of f_run)) = [[]; [2]] /\
+  c03_trace (chk_start 2 f_vals) (combine f_ops f_run) = true.
+Proof. destruct fork_witness as [A [B _]]. split; assumption. Qed.
+
+Print Assumptions C03_block_cheaters.
+Print Assumptions C03_cheaters_by_fork_marker.
+Print Assumptions C03_cheaters_are_visible_forkers.
+Print Assumptions C03_listed_iff_forker.
